@@ -176,6 +176,16 @@ func hsReply(t testing.TB, tr *tracer, c hsCase) {
 	if !waitFor(3*time.Second, func() bool { return len(sftpGoroutines()) <= base }) {
 		clean = false
 	}
+	// failing cleanly includes hanging up: the caller gets no *Client it could close, so the client's side of the
+	// connection must have been closed by the constructor itself (the peer would wait forever otherwise)
+	if !established {
+		c2s.mu.Lock()
+		hungUp := c2s.wclosed
+		c2s.mu.Unlock()
+		if !hungUp {
+			clean = false
+		}
+	}
 	tr.emit("HSReply", kv{"ver": c.Ver, "typ": c.Typ, "exts": c.Exts, "frame": c.Frame, "established": established, "extsok": extsok, "clean": clean})
 }
 
